@@ -21,7 +21,7 @@ RULE = (
     "argument type, unknown bucket -> function error; unterminated string, empty right-hand side, assignment to a non-variable -> parse error). Oracle: under a 10 s "
     "alarm the outcome is a value or a QueryException; any other exception whose traceback does not pass through a q2_* built-in body, aw_transform or aw_datastore "
     "escaped from parsing or name/arity/type resolution -> violation (failures below a built-in are ill-typed *contents*, counted as excluded); for (d) the class "
-    "must be the expected one; the typed corruptions are additionally ENUMERATED completely (every built-in x argument position x wrong literal x arity error). Non-trivial = the input has '=' with a non-empty right side (reaches a token scanner) and is not accepted by the reference parser."
+    "must be the expected one; the typed corruptions are additionally ENUMERATED completely (every built-in x argument position x wrong literal x arity error), every identifier-like string constant found in the query modules is tried as a variable bound to the name of a non-existent bucket before that bucket is asked for, and nesting depths 880..1080 (the band in which the interpreter stack runs out) are swept with a literal and with a call innermost. Non-trivial = the input has '=' with a non-empty right side (reaches a token scanner) and is not accepted by the reference parser."
 )
 ASSUMPTIONS = [
     "inputs are at most 128 characters for the fuzzer, ~60 for random text, up to ~15 000 characters for the deep-nesting source (the scanners are quadratic in the nesting depth, so far longer inputs can legitimately need more than the alarm); termination means 'returns within 10 s' (a miss is re-tried once with 60 s before it counts, so that a loaded machine cannot produce a verdict)",
@@ -403,6 +403,85 @@ def phase_typed_all(task):
     return st_
 
 
+def source_identifiers():
+    """identifier-like string constants of the query modules (an automatic dictionary: names the code itself gives a meaning to)"""
+    import re
+    import types
+
+    import aw_query.functions as f
+    import aw_query.query2 as q
+
+    seen, out = set(), set()
+
+    def walk(code):
+        consts = list(code.co_consts)
+        while consts:
+            c = consts.pop()
+            if isinstance(c, str) and re.fullmatch(r"[A-Za-z_][A-Za-z0-9_]{0,30}", c):
+                out.add(c)
+            elif isinstance(c, (tuple, frozenset)):
+                consts.extend(c)
+            elif isinstance(c, types.CodeType):
+                walk(c)
+
+    for mod in (f, q):
+        for obj in vars(mod).values():
+            for fn in (obj, getattr(obj, "__wrapped__", None)):
+                code = getattr(fn, "__code__", None)
+                if code is not None and id(code) not in seen:
+                    seen.add(id(code))
+                    walk(code)
+            if isinstance(obj, type):
+                for m in vars(obj).values():
+                    code = getattr(getattr(m, "__func__", m), "__code__", None)
+                    if code is not None and id(code) not in seen:
+                        seen.add(id(code))
+                        walk(code)
+    return sorted(out)[:300]
+
+
+def phase_named_state(task):
+    """for every identifier the query modules mention: bind it to a list / dict / string naming a non-existent bucket, then ask
+    for that bucket - an unknown bucket stays a function error whatever the program's variables are called"""
+    st_ = Stats()
+    names = source_identifiers()
+    for name in names[task["lo"] :: task["step"]]:
+        for val in ('["no-such-bucket"]', '{"no-such-bucket": 1}', '"no-such-bucket"'):
+            for call in ('query_bucket("no-such-bucket")', 'query_bucket_eventcount("no-such-bucket")', 'find_bucket("no-such-bucket")'):
+                text = f"{name} = {val}; RETURN = {call};"
+                try:
+                    status = judge(text)
+                    if status not in ("query_error:QueryFunctionException", "query_error:QueryParseException"):
+                        # (a name that cannot be assigned - e.g. one that lexes as a call - may be a parse error instead)
+                        raise Violation(f"query {text!r}: an unknown bucket must be a QueryFunctionException, got {status}", key="wrong_class:unknown_bucket")
+                except Violation as v:
+                    st_.failure = {"kind": "text", "case": {"text": text}, "message": v.msg}
+                    return st_
+                st_.evals += 1
+                st_.nontrivial.add(case_hash(text))
+    st_.classes["named_state_cases"] = st_.evals
+    return st_
+
+
+def phase_deep_sweep(task):
+    """nesting depths across the whole band in which the interpreter stack runs out, with a literal or a call innermost"""
+    st_ = Stats()
+    pairs = {"[": "]", '{"a":': "}", "concat([],": ")"}
+    for n in range(task["lo"], task["hi"], task.get("step", 1)):
+        for opener in task["openers"]:
+            closer = pairs[opener]
+            for inner in task["inners"]:
+                text = "RETURN=" + opener * n + inner + closer * n
+                try:
+                    judge(text)
+                except Violation as v:
+                    st_.failure = {"kind": "text", "case": {"text": text}, "message": v.msg}
+                    return st_
+                st_.evals += 1
+    st_.classes["deep_sweep_cases"] = st_.evals
+    return st_
+
+
 def extra_phases(tier, seed, jobs):
     tasks = []
     if tier == "quick":
@@ -411,7 +490,18 @@ def extra_phases(tier, seed, jobs):
     else:
         for w in range(jobs):
             tasks.append({"runs": 1500000, "seed": seed * 100 + w + 1, "corpus": w % 2 == 1, "budget_s": 3600})
-    return [("atheris", "phase_atheris", tasks), ("typed_all", "phase_typed_all", [{"lo": i, "step": 5} for i in range(5)])]
+    q = 'query_bucket("%s")' % BUCKET
+    if tier == "quick":  # every depth of the band for lists around a call / a literal; the other brackets every 7th depth
+        sweep = [{"lo": lo, "hi": lo + 20, "openers": ["["], "inners": ["nop()", "1"]} for lo in range(920, 1040, 20)]
+        sweep += [{"lo": 900 + k, "hi": 1060, "step": 14, "openers": ['{"a":', "concat([],"], "inners": ["nop()", q]} for k in (0, 7)]
+    else:
+        sweep = [{"lo": lo, "hi": lo + 10, "openers": ["[", '{"a":', "concat([],"], "inners": ["nop()", "1", q, "[]"]} for lo in range(860, 1100, 10)]
+    return [
+        ("atheris", "phase_atheris", tasks),
+        ("typed_all", "phase_typed_all", [{"lo": i, "step": 5} for i in range(5)]),
+        ("named_state", "phase_named_state", [{"lo": i, "step": 4} for i in range(4)]),
+        ("deep_sweep", "phase_deep_sweep", sweep),
+    ]
 
 
 def phase_atheris(task):
